@@ -4,10 +4,11 @@ Import ListNotations.
 Open Scope Z_scope.
 
 (* input : [VB method; VB urlPath; VB acceptEncoding; VL root elems; VB defaultFile; VZ enableCompress;
-            VL [ [VL path elems; VB content | VZ 0 (directory)] ... ]; VZ route]     (absolute paths; route: see static_handler)
+            VL [ [VL path elems; VB content | VZ 0 (directory)] ... ]; VZ route; VB cmd]     (absolute paths; route: see static_handler;
+            route 3: the BROWSE rule is written to a rule file with command cmd and loaded by the module's loader)
    output: [VZ status (-1 = handler lets the request go on); VB body; VB Content-Length header ("" = absent);
             VB Content-Encoding header; VL [FileBrowseNotExist increment; FileBrowseFallbackDefault increment;
-            FileCurrentOpened gauge after the response body was read and closed]] *)
+            FileCurrentOpened gauge after the response body was read and closed; rule file loaded (route 3, else 0)]] *)
 Definition dec_node (v : val) : option node :=
   match v with VB c => Some (NFile c) | VZ 0 => Some NDir | _ => None end.
 Definition dec_entry (v : val) : option (list elem * node) :=
@@ -19,13 +20,13 @@ Definition dec_fs (v : val) : option fsys :=
   match v with VL l => all_some (map dec_entry l) | _ => None end.
 
 Record input := { i_meth : bytes; i_name : bytes; i_ae : bytes; i_root : list elem; i_def : bytes;
-                  i_compress : bool; i_fs : fsys; i_route : Z }.
+                  i_compress : bool; i_fs : fsys; i_route : Z; i_cmd : bytes }.
 Definition dec_input (v : val) : option input :=
   match v with
-  | VL [VB m; VB n; VB ae; r; VB d; VZ c; f; VZ rt] =>
+  | VL [VB m; VB n; VB ae; r; VB d; VZ c; f; VZ rt; VB cmd] =>
     match as_LB r, dec_fs f with
     | Some r', Some f' => Some {| i_meth := m; i_name := n; i_ae := ae; i_root := r'; i_def := d;
-                                  i_compress := negb (c =? 0); i_fs := f'; i_route := rt |}
+                                  i_compress := negb (c =? 0); i_fs := f'; i_route := rt; i_cmd := cmd |}
     | _, _ => None
     end
   | _ => None
@@ -34,11 +35,14 @@ Definition serve_input (x : input) : resp :=
   serve (i_fs x) (i_root x) (i_meth x) (i_name x) (i_ae x) (i_def x) (i_compress x).
 Definition counters_input (x : input) : Z * Z :=
   counters (i_fs x) (i_root x) (i_meth x) (i_name x) (i_ae x) (i_def x) (i_compress x).
+Definition loaded_input (x : input) : bool := (i_route x =? 3) && rule_file_ok (i_fs x) (i_root x) (i_def x) (i_cmd x).
+(* the request is covered by a BROWSE rule *)
+Definition handled (x : input) : bool := (i_route x =? 0) || loaded_input x.
 Definition enc_resp (x : input) : val :=
-  if i_route x =? 0 then
+  if handled x then
     let r := serve_input x in let '(ne, fb) := counters_input x in
-    VL [VZ (r_status r); VB (r_body r); VB (r_clen r); VB (r_cenc r); VL [VZ ne; VZ fb; VZ 0]]
-  else VL [VZ (-1); VB []; VB []; VB []; VL [VZ 0; VZ 0; VZ 0]].
+    VL [VZ (r_status r); VB (r_body r); VB (r_clen r); VB (r_cenc r); VL [VZ ne; VZ fb; VZ 0; vbool (loaded_input x)]]
+  else VL [VZ (-1); VB []; VB []; VB []; VL [VZ 0; VZ 0; VZ 0; VZ 0]].
 
 Definition run_C50 (v : val) : val :=
   match dec_input v with Some x => enc_resp x | None => VErr 0 end.
@@ -150,8 +154,9 @@ Definition prop_sibling (x : input) (st : Z) (body clen cenc : bytes) : bool :=
 
 Definition prop_C50 (i o : val) : bool :=
   match dec_input i, o with
-  | Some x, VL [VZ st; VB body; VB clen; VB cenc; VL [VZ ne; VZ fb; VZ opened]] =>
-    if i_route x =? 0 then
+  | Some x, VL [VZ st; VB body; VB clen; VB cenc; VL [VZ ne; VZ fb; VZ opened; VZ loaded]] =>
+    (* a rule file either fails to load or its rule is enforced: with route 3 the request is covered iff the file loaded *)
+    if (i_route x =? 0) || ((i_route x =? 3) && negb (loaded =? 0)) then
       prop_resp x st body clen cenc && prop_enc x st body clen cenc && prop_sibling x st body clen cenc
       && (opened =? 0)                                   (* the served file is closed again *)
     else (st =? -1) && bytes_eqb body []                 (* no rule for the request: not handled here *)
